@@ -35,7 +35,7 @@ def run(ck):
     groups = []
     for i, g in enumerate(P):
         g = dict(g)
-        g["calls"] = calls_for(g, ("dict", "list", "valueof"), ilp=(i % (23 if q else 11) == 0), all_switches=True)
+        g["calls"] = calls_for(g, ("dict", "list", "valueof", "repnames"), ilp=(i % (23 if q else 11) == 0), all_switches=True)
         groups.append(g)
     # beyond the exhaustive scope: seeded random / degenerate families (default switches + a few random combinations)
     fam = gen.part_families(ck.rng, 300 if q else 6000, maxn=9 if q else 11, maxv=100, maxk=5 if q else 7)
@@ -46,7 +46,7 @@ def run(ck):
         groups.append(g)
     groups += witness_groups(ck)
     ck.rule = ("TLC enumerates every bag of <=%d values in 0..%d x k<=%d (P-scope); every partitioner (complete greedy under all "
-               "16 switch combinations x 3 objectives) is executed on each in dict/list/valueof presentation; plus seeded random, "
+               "16 switch combinations x 3 objectives) is executed on each in dict / list / names+valueof presentation (distinct names, and names repeated for equal items); plus seeded random, "
                "all-equal, all-zero, k>n families. non-trivial = distinct (bag,k) with >=2 items and >=2 bins") % ((5, 5, 4) if q else (6, 6, 6))
     traces = core.pmap(drive.run_part_group, groups)
     for t in traces:
